@@ -64,6 +64,7 @@ pub fn run(f: &[&str]) -> String {
         let n = fl.var_names().len();
         let exact = fl.eval(&sym_vars(n));
         let mut ar = vec![];
+        let mut consume = "ok".to_string();
         for k in 0..=kmax {
             let vs = sym_vars(k);
             let same = |r: &exmex::ExResult<Sym>| match (r, &exact) {
@@ -107,6 +108,17 @@ pub fn run(f: &[&str]) -> String {
                 (Err(_), Err(_)) => "p".to_string(),
                 _ => "X".to_string(),
             };
+            // C15: handing over k values gives what borrowing a slice of k values gives (a value or an
+            // error), whatever k is
+            if consume == "ok" {
+                let cs = match &strict {
+                    Ok(r) => cls(r).to_string(),
+                    Err(_) => "p".to_string(),
+                };
+                if vi != cs {
+                    consume = format!("{} values: eval is {} but eval_vec/eval_iter are {}", k, cs, vi);
+                }
+            }
             ar.push(format!("{}:{}{}{}{}{}{}{}", k, c(strict), c(rel), rel_same, vi, c(dstrict), c(drel), drel_same));
         }
         // binding: with a slice of exactly the right length every entry point binds the k-th value to
@@ -127,6 +139,6 @@ pub fn run(f: &[&str]) -> String {
                 bind = format!("{} gives {} but eval gives {}", name, got, want);
             }
         }
-        format!("vars={}\tdvars={}\tar={}\tbind={}", strs(fl.var_names()), strs(dp.var_names()), ar.join(","), bind)
+        format!("vars={}\tdvars={}\tar={}\tbind={}\tconsume={}", strs(fl.var_names()), strs(dp.var_names()), ar.join(","), bind, consume)
     })
 }
